@@ -167,6 +167,8 @@ def ref_encode(t: T, v, fam: Family, ns):
         return {ref_encode(t.args[0], a, fam, ns): ref_encode(t.args[1], b, fam, ns) for a, b in v.items()}
     if k == "counter":
         return {ref_encode(t.args[0], a, fam, ns): b for a, b in v.items()}
+    if k == "defaultdict":
+        return {ref_encode(t.args[0], a, fam, ns): ref_encode(t.args[1], b, fam, ns) for a, b in v.items()}
     if k == "chainmap":
         return [{ref_encode(t.args[0], a, fam, ns): ref_encode(t.args[1], b, fam, ns) for a, b in m.items()} for m in v.maps]
     if k == "opt":
@@ -184,7 +186,11 @@ def ref_encode(t: T, v, fam: Family, ns):
         return v
     if k == "data":
         spec = fam.get(t.name)
-        return {f.name: ref_encode(f.ty, getattr(v, f.name), fam, ns) for f in all_fields(spec, fam)}
+        fields = all_fields(spec, fam)
+        if spec.config.get("sort_keys"):
+            fields = sorted(fields, key=lambda f: f.name)
+        by_alias = spec.config.get("serialize_by_alias")
+        return {(f.alias if (by_alias and f.alias is not None) else f.name): ref_encode(f.ty, getattr(v, f.name), fam, ns) for f in fields}
     if k == "nt":
         spec = fam.get(t.name)
         return [ref_encode(f.ty, x, fam, ns) for f, x in zip(spec.fields, v)]
@@ -290,16 +296,38 @@ def ref_decode(t: T, d, fam: Family, ns):
             m = [ref_decode(a, x, fam, ns) for a, x in zip(mid, middle)]
         tail = [ref_decode(a, x, fam, ns) for a, x in zip(suf, d[len(d) - len(suf):])] if suf else []
         return tuple(head + m + tail)
-    if k in ("dict", "mapping", "ordereddict"):
+    if k in ("dict", "mapping", "ordereddict", "defaultdict", "counter"):
         try:
             items = list(d.items())
         except Exception:
             raise RefError("not a mapping") from None
         try:
+            if k == "counter":
+                try:
+                    out = {ref_decode(t.args[0], a, fam, ns): int(b) for a, b in items}
+                except RefError:
+                    raise
+                except Exception as e:
+                    raise RefError(f"counter value: {type(e).__name__}") from None
+                return collections.Counter(out)
             out = {ref_decode(t.args[0], a, fam, ns): ref_decode(t.args[1], b, fam, ns) for a, b in items}
         except TypeError:
             raise RefError("unhashable key") from None
+        if k == "defaultdict":
+            return collections.defaultdict(None, out)
         return collections.OrderedDict(out) if k == "ordereddict" else out
+    if k == "chainmap":
+        maps = []
+        for m in _iter(d):
+            try:
+                items = list(m.items())
+            except Exception:
+                raise RefError("chainmap element is not a mapping") from None
+            try:
+                maps.append({ref_decode(t.args[0], a, fam, ns): ref_decode(t.args[1], b, fam, ns) for a, b in items})
+            except TypeError:
+                raise RefError("unhashable key") from None
+        return collections.ChainMap(*maps)
     if k == "opt":
         return None if d is None else ref_decode(t.args[0], d, fam, ns)
     if k == "data":
@@ -309,9 +337,17 @@ def ref_decode(t: T, d, fam: Family, ns):
         if not isinstance(d, dict):
             raise RefError("non-mapping argument")
         kw = {}
+        allow = spec.config.get("allow_deserialization_not_by_alias")
+        if spec.config.get("forbid_extra_keys"):
+            allowed = {f.alias or f.name for f in fields} | ({f.name for f in fields} if allow else set())
+            if any(kk not in allowed for kk in d):
+                raise RefError("extra keys")
         for f in fields:
-            if f.name in d:
-                x = d[f.name]
+            key = f.alias if f.alias is not None else f.name
+            if key not in d and allow and f.alias is not None and f.name in d:
+                key = f.name
+            if key in d:
+                x = d[key]
                 nullable = f.ty.kind in ("opt", "none", "any") or f.default is None
                 if x is None and nullable:
                     kw[f.name] = None
@@ -389,6 +425,12 @@ def conforms(t: T, r, fam: Family, ns) -> bool:
         return tys is not None and all(conforms(a, x, fam, ns) for a, x in zip(tys, r))
     if k in ("dict", "mapping"):
         return type(r) is dict and all(conforms(t.args[0], a, fam, ns) and conforms(t.args[1], b, fam, ns) for a, b in r.items())
+    if k == "counter":
+        return type(r) is collections.Counter and all(conforms(t.args[0], a, fam, ns) and type(b) is int for a, b in r.items())
+    if k == "defaultdict":
+        return type(r) is collections.defaultdict and all(conforms(t.args[0], a, fam, ns) and conforms(t.args[1], b, fam, ns) for a, b in r.items())
+    if k == "chainmap":
+        return type(r) is collections.ChainMap and all(type(m) is dict and all(conforms(t.args[0], a, fam, ns) and conforms(t.args[1], b, fam, ns) for a, b in m.items()) for m in r.maps)
     if k == "ordereddict":
         return type(r) is collections.OrderedDict and all(conforms(t.args[0], a, fam, ns) and conforms(t.args[1], b, fam, ns) for a, b in r.items())
     if k == "opt":
